@@ -6,7 +6,7 @@ def run(tier, a=None):
     cd = [{'src': 'h_cond.cpp', 'defs': ['TAG=' + t], 'filter': 'cond_exp.*', 'out_prefixes': ['exp(']} for t in ('SE2t', 'SO3t', 'SE3t')]
     import props.common as pc
     _o = pc.opts
-    pc.opts = lambda tier, a=None: dict(_o(tier, a), cond_tol='1/1000000000')
+    pc.opts = lambda tier, a=None: dict(_o(tier, a), nonfinite_check=True, cond_tol='1/1000000000')
     import props.common2 as pc2
     pc2.opts = pc.opts
     return combined('C02', tier, a, specs, tr,
